@@ -304,6 +304,7 @@ def run(ctx):
     float_order_and_tie_rules(ctx, prog)
     non_finite_guard_rule(ctx, prog)
     theil_sen_rule(ctx, prog)
+    tie_predicate_rule(ctx, prog)
 
     R = Ranges(prog)
     ctx.extra["unknown_calls_in_range_analysis"] = sorted(set(R.unknown))[:20]
@@ -469,6 +470,19 @@ def non_finite_guard_rule(ctx, prog):
                    f"computations that receive parameter _{prm} without the is_finite test before them: {early or 'none'}")
     if n == 0:
         ctx.missing("R9.non-finite-guard-first", "is_finite guards on parameters in cbh_stats")
+
+
+def tie_predicate_rule(ctx, prog):
+    b = prog.one("stats::same")
+    if b is None:
+        return
+    ctx.fn(b)
+    calls = sorted({t["callee"].get("method") for bb, t in b.calls() if not b.blocks[bb].cleanup})
+    arith = sorted({st["rv"]["op"] for blk in b.blocks for st in blk.stmts if st["k"] == "assign" and st["rv"]["k"] == "binop" and
+                    st["rv"]["op"] in ("Sub", "Mul", "Div", "Add", "Le", "Lt", "Ge", "Gt")})
+    ok = set(calls) <= {"total_cmp", "eq", "ne", "partial_cmp", "is_eq"} and not arith
+    ctx.ob("R7.float-order-is-numeric", "same.ties-are-exact", ok, b.loc(),
+           f"the tie predicate uses {calls} and float arithmetic {arith or 'none'}: two values are tied iff they compare equal - a tolerance makes ties non-transitive and turns a strictly increasing map that compresses gaps into ties")
 
 
 def theil_sen_rule(ctx, prog):
